@@ -239,18 +239,21 @@ def m_code_default(draw, ir):
     p["typ"] = draw(st.sampled_from(DOTTED + ("List[int]", "Tuple[int, int]")))
     expr = {"List[int]": "[1, 2]", "Tuple[int, int]": "(1, 2)"}.get(p["typ"]) or draw(st.sampled_from(CODE_SIMPLE))
     p["default"] = code(expr)
+    p["_dflts"] = st.just(p["default"])
 
 
 def m_code_default_dot(draw, ir):
     p = _ensure_param(draw, ir)
     p["typ"] = draw(st.sampled_from(DOTTED))
     p["default"] = code(draw(st.sampled_from(CODE_DOT)))
+    p["_dflts"] = st.just(p["default"])
 
 
 def m_int_under_nonscalar_type(draw, ir):
     p = _ensure_param(draw, ir)
     p["typ"] = draw(st.sampled_from(("Optional[int]", "Union[int, float]", "Literal[-1, 0, 1]")))
     p["default"] = draw(st.sampled_from((-1, 0, 1)))
+    p["_dflts"] = st.sampled_from((-1, 0, 1))
 
 
 def m_none_default(draw, ir):
@@ -443,6 +446,7 @@ def m_optional_zero(draw, ir):
     t, v = draw(st.sampled_from((("int", 0), ("float", 0.0), ("bool", False))))
     p["typ"] = "Optional[%s]" % t
     p["default"] = v
+    p["_dflts"] = st.just(v)  # (a later mutator that re-draws the default must draw one of THIS type)
 
 
 def m_bool_false(draw, ir):
@@ -454,6 +458,7 @@ def m_int_literal(draw, ir):
     p = _ensure_param(draw, ir)
     vals = draw(st.lists(st.integers(-3, 9), min_size=2, max_size=3, unique=True))
     p["typ"] = norm_type("Literal[%s]" % ", ".join(map(str, vals)))
+    p["_dflts"] = st.sampled_from(vals)
     if "default" in p or draw(st.booleans()):
         p["default"] = draw(st.sampled_from(vals))
 
@@ -464,6 +469,7 @@ def m_mixed_literal(draw, ir):
     pool = [draw(st.integers(0, 9)), draw(st.sampled_from((0.5, 2.5, 1.25))), draw(st.sampled_from(STR_WORDS)), True]
     vals = draw(st.lists(st.sampled_from(pool), min_size=2, max_size=3, unique_by=lambda v: type(v).__name__))
     p["typ"] = norm_type("Literal[%s]" % ", ".join(repr(v) for v in vals))
+    p["_dflts"] = st.sampled_from(vals)
     if draw(st.booleans()):
         p.pop("default", None)
     elif "default" in p:
@@ -478,6 +484,7 @@ def m_spaced_literal(draw, ir):
     p = _ensure_param(draw, ir)
     vals = draw(st.lists(st.sampled_from(SPACED), min_size=2, max_size=5, unique=True))
     p["typ"] = norm_type("Literal[%s]" % ", ".join(repr(v) for v in vals))
+    p["_dflts"] = st.sampled_from(vals)
     p["default"] = draw(st.sampled_from(vals))
 
 
@@ -485,6 +492,7 @@ def m_single_literal(draw, ir):
     p = _ensure_param(draw, ir)
     v = draw(st.one_of(st.sampled_from(STR_WORDS), st.sampled_from(STR_WORDS), st.integers(0, 9), st.sampled_from((0.5, 2.5))))
     p["typ"] = "Literal[%r]" % (v,)
+    p["_dflts"] = st.just(v)
     if "default" in p or draw(st.booleans()):
         p["default"] = v
 
